@@ -96,15 +96,17 @@ def gen(ctx):
                 g = make_ancestral(g)
         elif k < 0.7:
             g = C.rand_dag_order_graph(rng, n, C.ADMG_STATES[1:], density=dens)
-        elif k < 0.8:
+        elif k < 0.78:
             g = C.rand_graph(rng, n, C.ADMG_STATES_CYC, density=dens)
-        elif k < 0.9:   # undirected-edge stream (rejection clause)
+        elif k < 0.86:  # undirected-edge stream (rejection clause)
             g = C.rand_dag_order_graph(rng, n, [("D>",), ("B",), ("U",)], density=dens)
             if not g["U"]:
                 a, b = rng.sample(range(n), 2)
                 g["U"].append([a, b])
-        else:           # primitive-inducing-path shapes: collider chain a <-> c1 <-> ... <-> b with ci -> a or b
+        elif k < 0.91:  # primitive-inducing-path shapes: collider chain a <-> c1 <-> ... <-> b with ci -> a or b
             g = chain_shape(rng, n)
+        else:           # the same with cross edges among the colliders: many routes enter a collider through a tail first
+            g = chain_shape(rng, max(n, 6), cross=True)
         if j % 3 == 0:
             g = C.shuffled_graph(rng, g)
         i += 1
@@ -133,10 +135,10 @@ def make_ancestral(g):
     return h
 
 
-def chain_shape(rng, n):
+def chain_shape(rng, n, cross=False):
     nodes = list(range(n))
     rng.shuffle(nodes)
-    k = rng.randint(3, n)
+    k = rng.randint(3, n) if not cross else n
     ch = nodes[:k]
     g = C.g_new(n)
     a, b = ch[0], ch[-1]
@@ -148,6 +150,15 @@ def chain_shape(rng, n):
             g["D"].append([c, a])
         elif r < 0.9:
             g["D"].append([c, b])
+    if cross:
+        inner = ch[1:-1]
+        for i in range(len(inner)):
+            for j in range(i + 1, len(inner)):
+                r = rng.random()
+                if r < 0.3:
+                    g["D"].append([inner[i], inner[j]])
+                elif r < 0.5 and abs(i - j) > 1:
+                    g["B"].append([inner[i], inner[j]])
     for v in nodes[k:]:
         if rng.random() < 0.5:
             g["D"].append([v, rng.choice(ch)])
